@@ -141,7 +141,7 @@ def steps_world(n_ticks):
 
 
 def struct_world(op, tick, ts, parallel_inner, payload, n_ticks,
-                 issuer='process', op_first=False):
+                 issuer='process', op_first=False, multi=False):
     """One structural operation at ``tick`` against compartments whose
     inner process (timestep ts) runs in a worker or serially."""
     name = op[0]
@@ -157,8 +157,18 @@ def struct_world(op, tick, ts, parallel_inner, payload, n_ticks,
         inner['_parallel'] = True
 
     def comp():
-        return {'proc': copy.deepcopy(inner)}
+        c_ = {'proc': copy.deepcopy(inner)}
+        if multi:
+            # three workers in one compartment, one of them nested
+            for name in ('proc2',):
+                c_[name] = dict(copy.deepcopy(inner), pid=name, ts=1)
+            c_['org'] = {'inner': dict(copy.deepcopy(inner), pid='inner',
+                                       ts=1)}
+        return c_
     topo_inner = {'proc': {'in': ()}}
+    if multi:
+        topo_inner['proc2'] = {'in': ()}
+        topo_inner['org'] = {'inner': {'in': ('..',)}}
     if name == 'del':
         upd = {c: {'_delete': [op[2]]}}
     elif name == 'add':
@@ -244,6 +254,8 @@ def run_world(spec, stop, watchdog=30.0):
                  leaked, hang)
     """
     del WORKERS[:]
+    gc.collect()
+    gc.disable()
     unraisable = []
     old_hook = sys.unraisablehook
     sys.unraisablehook = lambda u: unraisable.append(
@@ -292,10 +304,17 @@ def run_world(spec, stop, watchdog=30.0):
         except BaseException as e:  # noqa
             res['end_error'] = e
         pids = list(WORKERS)
+        if stop[0] != 'drop' and eng is not None:
+            # every worker - also those of compartments deleted or divided
+            # away during the run - is gone once end() has returned, while
+            # the engine object is still alive (no help from the garbage
+            # collector, which is switched off during the run)
+            res['leaked'] = wait_gone(pids, 5.0)
         eng = None
         probes.ENGINE = None
         gc.collect()
-        res['leaked'] = wait_gone(pids, 5.0)
+        if not res['leaked']:
+            res['leaked'] = wait_gone(pids, 5.0)
         res['n_workers'] = len(pids)
     except Hang:
         res['hang'] = True
@@ -309,6 +328,7 @@ def run_world(spec, stop, watchdog=30.0):
         signal.setitimer(signal.ITIMER_REAL, 0)
         signal.signal(signal.SIGALRM, old)
         sys.unraisablehook = old_hook
+        gc.enable()
         # never leave stray workers behind
         for pid in res.get('leaked', []):
             try:
@@ -510,8 +530,9 @@ def run_job(job, acc):
     else:
         _, op, tick, ts, payload, issuer, n_ticks = job[:7]
         op_first = job[7] if len(job) > 7 else False
+        multi = len(job) > 8 and job[8] == 'multi'
         spec = struct_world(op, tick, ts, False, payload, n_ticks, issuer,
-                            op_first)
+                            op_first, multi)
         par = ('inner',)
         stop = ('full',)
         status = 'idle' if issuer == 'step' and (tick + 1) % ts == 0 else (
@@ -527,8 +548,9 @@ def run_job(job, acc):
         pspec = hist_world(history, issuer, ts_pair, True)
     elif kind == 'struct':
         pspec = struct_world(op, tick, ts,
-                             job[8] if len(job) > 8 else True,
-                             payload, n_ticks, issuer, op_first)
+                             job[8] if len(job) > 8 and job[8] != 'multi'
+                             else True,
+                             payload, n_ticks, issuer, op_first, multi)
     else:
         pspec = copy.deepcopy(spec)
         mark(pspec['processes'], par)
@@ -595,6 +617,14 @@ def jobs(ctx):
         for issuer in ('step', 'process'):
             for ts_pair in ((1, 1), (3, 1)):
                 out.append(('hist', h, issuer, ts_pair))
+    # compartments holding three workers (one nested): all of them must
+    # be stopped when the compartment is deleted or divided away
+    for op in (('del', 'X', 'a'), ('div', 'X', 'a')):
+        for ts in (1, 3):
+            for tick in (0, 1):
+                for issuer in ('process', 'step'):
+                    out.append(('struct', op, tick, ts, 0, issuer,
+                                n_ticks + 1, False, 'multi'))
     for sub in (('q1',), ('q2',), ('q1', 'q2')):
         for tick in (0, 1):
             for issuer in ('process', 'step'):
